@@ -7,17 +7,88 @@ HIST = [("merge_empty_identity", "merge.empty_identity", "<Histogram as Merge>::
         ("merge_and_add_assign_binwise", "merge.binwise_total_adds", "<Histogram as Merge>::merge")]
 
 
+def copy_exact_rs(tier):
+    """Bit-for-bit identity as a structural fact: when one side is empty, merge must leave / copy the
+    observable fields WITHOUT applying any arithmetic to them (term identity of the symbolic post-state).
+    A non-identical term is not yet a violation (it may still round to the same bits), so it is reported
+    as refuted only if a replay on the real crate shows a differing bit pattern, otherwise as undecided."""
+    import terms as tm
+    from terms import T, UINT, REAL
+    from common import Obligation, DISCHARGED, REFUTED, UNDECIDED
+    from executor import Exec, Ref
+    import moments_rs as mr
+    from spec import PowerSums
+    obs = []
+    cr = mr.load_crate()
+    for ty in ("Mean", "Variance", "Skewness", "Kurtosis"):
+        f = mr.FILES[ty] + "::<%s as Merge>::merge" % ty
+        n = T.sym("n", UINT)
+        sums = {2: T.sym("M2"), 3: T.sym("M3"), 4: T.sym("M4")}
+        full = lambda tag="": mr.fixed_state(cr, ty, n, T.sym("avg"), sums)
+        empty = lambda tag="": mr.fixed_state(cr, ty, T.num(0, UINT), T.sym("avg0" + tag), {k: T.num(0, REAL) for k in (2, 3, 4)})
+        for case, mk_self, mk_other, src in (("empty_left", empty, full, "other"), ("empty_right", full, empty, "self")):
+            paths = Exec(cr).run(lambda: ({"self": mk_self("s"), "other": mk_other("o")}, [n.ge(1), n.lt(mr.NMAX)]),
+                                 lambda e, r: e.call(ty, "merge", r["self"], [Ref(r["other"])]))
+            want = mr.read_state(full())
+            ok = bool(paths) and all((not p.panic) and all(mr.read_state(p.state["self"])[k] == want[k] for k in want) for p in paths)
+            name = "C11.%s.merge_%s.pure_copy_no_arithmetic" % (ty, case)
+            if ok:
+                obs.append(Obligation(name, f, "rs-executor", DISCHARGED, 0.0, "post-state fields are the very terms of the non-empty operand",
+                                      text="term identity of every field after merge with an empty estimator"))
+            else:
+                got = [tm.show(mr.read_state(p.state["self"])["avg"])[:80] for p in paths if not p.panic][:1]
+                ex = _bit_replay(ty)
+                obs.append(Obligation(name, f, "rs-executor+replay", REFUTED if ex else UNDECIDED, 0.0,
+                                      "merge applies arithmetic to the copied state (avg = %s)%s" % (got, "" if ex else "; no differing bit pattern found by replay"),
+                                      cex={"class": {"case": case}, "replay": ex}))
+    return obs
+
+
+def _bit_replay(ty):
+    """Short histories merged into / with an empty estimator on the real crate: any statistic whose bits differ."""
+    import replay
+    acc = {"Mean": ["mean"], "Variance": ["mean", "population_variance"], "Skewness": ["mean", "population_variance", "skewness"],
+           "Kurtosis": ["mean", "population_variance", "skewness", "kurtosis"]}[ty]
+    seqs = [[0.1, 0.1, 0.1], [0.1, 0.2, 0.4], [1e308, 1e308], [0.3, 0.7, 0.11, 0.13, 0.9], [1.0, 2.0, 4.0]]
+    progs = []
+    for xs in seqs:
+        adds = [["add", x] for x in xs]
+        progs.append({"type": ty, "ctor": ["new"], "ops": adds, "observe": acc})
+        progs.append({"type": ty, "ctor": ["new"], "ops": [["merge", {"type": ty, "ctor": ["new"], "ops": adds}]], "observe": acc})
+        progs.append({"type": ty, "ctor": ["new"], "ops": adds + [["merge", {"type": ty, "ctor": ["new"], "ops": []}]], "observe": acc})
+    res = replay.run_programs(progs)
+    for i in range(0, len(progs), 3):
+        base = res[i]["obs"]
+        for j in (1, 2):
+            for k in acc:
+                a, b = base.get(k), res[i + j]["obs"].get(k)
+                if a is None or b is None:
+                    continue
+                if replay.bits(a) != replay.bits(b) and not (a != a and b != b):
+                    return {"program": progs[i + j], "statistic": k, "expected_bits_of": repr(a), "actual": repr(b)}
+    return None
+
+
+def confirm(ob):
+    r = (ob.cex or {}).get("replay")
+    if r:
+        return {"program": r["program"], "expected": {r["statistic"]: r["expected_bits_of"]}, "actual": {r["statistic"]: r["actual"]},
+                "confirmed_on_real_code": True}
+    return None
+
+
 def run(tier, seed):
     # len_adds of the higher-order types drags the whole float merge through CBMC (Kurtosis 170 s, Moments6 400 s):
     # thorough tier only; in the quick tier their `merge.len` is C02's integer obligation (RS).
     slow = ("kurtosis_len_adds", "vm4::verif_kani::mn_len_adds", "vm6::verif_kani::mn_len_adds")
-    job = kjobs.job_for("C11", tier, exclude=slow if tier == "quick" else (), timeout=2400, harness_timeout=1500)
+    job = kjobs.job_for("C11", tier, exclude=slow if tier == "quick" else (), timeout=2400, harness_timeout=300 if tier == "quick" else 1500)
     # Min / Max: identity of merge with new() on the full f64 domain under is_valid (x not NaN)
     job.include_module(kjobs.MM, "minmax_c11.rs")
     from kani_engine import Harness
     job.add(Harness("minmax_merge_empty_identity", "C11.MinMax.merge_empty_identity", "<Min as Merge>::merge, <Max as Merge>::merge"))
     obs = job.run()
     obs += hist_job("C11", [1, 3], HIST, unwind=12, timeout=900, harness_timeout=400).run()
+    obs += copy_exact_rs(tier)
     obs += vl.run_lemmas("C11", ["merge_tree", "lemma_fold"])
     meta = {
         "level": "proof",
@@ -31,7 +102,8 @@ def run(tier, seed):
             "states are arbitrary symbolic values under the type's is_valid() predicate (n < 2^53; sum_2 / m[0] / sum_x_2 / sum_y_2 not < 0; weight sums +0.0 or positive; Min/Max not NaN) which over-approximates the reachable states; is_valid is proved inductive in C17 (sums) and here (weights)",
             "'every reported statistic bit-for-bit' is decided on the observable part of the state: the count always, every other field bit-for-bit whenever some accessor can read it; accessors are deterministic functions of the fields (&self, no interior mutability, no globals)",
             "configurations: define_moments! N in {4, 6}; histograms LEN in {1, 3}; total bin count adds because merge is the bin-wise sum (C13)",
+            "moment family additionally: pure_copy_no_arithmetic (RS term identity) - merging with an empty estimator applies no float operation to the surviving state",
             "A-CBMC; A-RUSTC"],
         "explanation": "loop-free harnesses over fully symbolic states: complete proofs of merge_empty_right, merge_empty_left, len_adds, is_empty_iff_len0 and the frame of the argument per type.",
     }
-    return obs, meta, None
+    return obs, meta, confirm
